@@ -12,6 +12,7 @@ from lib.harness import exc_sig, fail
 from lib.sched import Scheduler
 
 PID = 'C10'
+CASE_TIMEOUT = 0         # bounded by the scheduler's step bound; alarms and scheduler threads do not mix
 LEVEL = 'exploration'
 RULE = ('Programs: port kind in {lock-protected device double with a byte-wise wire, EchoPort, IOPort(dev, dev), '
         'IOPort(in_dev, out_dev) over a shared wire, MultiPort over two ports with yield_ports on/off, ParserQueue fed by '
